@@ -32,13 +32,20 @@ def openMachine (args : List String) (hin hout : IO.FS.Stream) : Option (IO Bool
     (cfg.mapM parse).map fun c => serve (numAFifoMulti c) hin hout
   | _ => none
 
-/-- `call cdc_kind <cd_from> <cd_to> <log2 depth | none> <buffered 0/1>`,
+/-- `call ps_tight <R>` → the tight pulse-spacing witness schedule `psTight R` as `ti to m i;…`,
+    `call afifo_ctor <depth | none> <buffered 0/1>` → `refused` | `built <depth_bits> <storage words> <capacity>`,
+    `call cdc_kind <cd_from> <cd_to> <log2 depth | none> <buffered 0/1>`,
     `call uart_fifo_kind <depth> <sink_cd> <source_cd>`, `call uart_tx <depth> <phy_cd>`, `call uart_rx <depth> <phy_cd>`. -/
 def call (args : List String) : Option String :=
   match args with
   | ["cdc_kind", a, b, d, buf] =>
     let dl : Option (Option Nat) := if d == "none" then some none else d.toNat?.map some
     dl.map fun dl => (cdcKind a b dl (buf == "1")).show
+  | ["afifo_ctor", d, buf] =>
+    let dl : Option (Option Nat) := if d == "none" then some none else d.toNat?.map some
+    dl.map fun dl => showCtor dl (buf == "1")
+  | ["ps_tight", r] => r.toNat?.map fun r =>
+    String.intercalate ";" ((psTight r).map fun x => s!"{b2n x.ti} {b2n x.tO} {b2n x.m} {b2n x.i}")
   | ["uart_fifo_kind", d, a, b] => d.toNat?.map fun d => (uartFifoKind d a b).show
   | ["uart_tx", d, p] => d.toNat?.map fun d => (uartTxFifo d p).show
   | ["uart_rx", d, p] => d.toNat?.map fun d => (uartRxFifo d p).show
